@@ -810,12 +810,17 @@ def m_reflect_typeof(ex, st, args, ins, fn):
 
 @model('time.Now')
 def m_time_now(ex, st, args, ins, fn):
-    # nondeterministic instant: wall = nanoseconds (no monotonic reading), ext = seconds since year 1
+    # Default: a concrete clock that advances one second per reading (time arithmetic multiplies and
+    # divides by 10^9 on 64 bits, which no back end decides when the instant is symbolic).
+    # With //verif:opt time=symbolic the instant is an arbitrary value instead.
+    if ex.opts.get('time') != 'symbolic':
+        k = st.ghost.get('clock', 0) + 1
+        st.ghost['clock'] = k
+        return (0, 63800000000 + k, None)   # wall = 0 (no monotonic reading), ext = seconds since year 1
     ns = z3.BitVec(ex.fresh_name('now_ns'), 64)
     sec = z3.BitVec(ex.fresh_name('now_s'), 64)
     c = z3.And(z3.ULT(ns, 1000000000), sec >= 0, sec < (1 << 40))
     ex.add_constraint(st, c)
-    # not recorded in the witness: the native replay reads the real clock
     return (ns, sec, None)
 
 
@@ -940,3 +945,45 @@ def iface_fileinfo(ex, st, x, mname, args, ins):
 
 IFACE_MODELS['io/fs.FileInfo'] = iface_fileinfo
 IFACE_MODELS['os.FileInfo'] = iface_fileinfo
+
+
+# ---------------------------------------------------------------- sync.Map (association list per map object)
+def _syncmap(ex, st, p):
+    return ('syncmap', p.cell, p.path)
+
+
+@model('(*sync.Map).Store')
+def m_syncmap_store(ex, st, args, ins, fn):
+    k = _syncmap(ex, st, args[0])
+    ent = [(kk, vv) for (kk, vv) in st.ghost.get(k, ()) if ex.iface_eq(st, kk, args[1]) is not True]
+    for (kk, vv) in ent:
+        if ex.iface_eq(st, kk, args[1]) is not False:
+            raise Unsupported('sync.Map with symbolically equal keys')
+    st.ghost[k] = tuple(ent) + ((args[1], args[2]),)
+    return None
+
+
+@model('(*sync.Map).Load')
+def m_syncmap_load(ex, st, args, ins, fn):
+    for (kk, vv) in st.ghost.get(_syncmap(ex, st, args[0]), ()):
+        c = ex.iface_eq(st, kk, args[1])
+        if c is True:
+            return (vv, True)
+        if c is not False:
+            raise Unsupported('sync.Map with symbolically equal keys')
+    return (None, False)
+
+
+@model('(*sync.Map).Delete')
+def m_syncmap_delete(ex, st, args, ins, fn):
+    k = _syncmap(ex, st, args[0])
+    ent = []
+    for (kk, vv) in st.ghost.get(k, ()):
+        c = ex.iface_eq(st, kk, args[1])
+        if c is True:
+            continue
+        if c is not False:
+            raise Unsupported('sync.Map with symbolically equal keys')
+        ent.append((kk, vv))
+    st.ghost[k] = tuple(ent)
+    return None
